@@ -983,7 +983,9 @@ class Messenger(Connection):
         self.send_ready()
 
         self._keepalive_reset()
-        self._idle_reset()
+        if not pkt.haslayer(messages.Keepalive):
+            # an own KEEPALIVE is not a sign of life of the session
+            self._idle_reset()
 
     def send_reject(self, reason, pkt=None):
         ''' Send a message rejection response.
